@@ -46,8 +46,8 @@
    - Block.Delete / Head.Delete tombstones are kept unmerged; Head.Delete's interval is clamped
      to the oldest / newest in-order head sample of the series (the code clamps to the series'
      chunk bounds, which can reach below minValidTime: no visible difference);
-   - a compaction whose result is empty writes nothing (the Deletable marking of the parents is
-     not modelled). *)
+   - a compaction whose result is empty deletes its parents (the Deletable marking in their
+     meta.json is not a step of its own: the parents hold no visible sample by then). *)
 From Coq Require Import List ZArith Bool.
 From Verif Require Import lib.Int64.
 Import ListNotations.
@@ -317,7 +317,11 @@ Definition merge_trace (s : fs) (parents : list Z) (order : list target) : list 
   let ps := filter (fun b => memZ (b_id b) parents) (f_blk s) in
   let data := flat_map blk_vis ps in
   match data with
-  | [] => []
+  | [] =>
+      (* nothing left after applying the tombstones: CompactWithBlockPopulator marks the parents
+         Deletable (meta.json rewritten), reloadBlocks deletes them *)
+      flat_map (fun tg => match tg with TBlk p => [BlkToDel p; DelRemove p] | THead => [] end)
+               (sched order (map (fun q => TBlk (b_id q)) ps))
   | _ => let b := mkBlk (fresh s) (list_min (map b_mint ps) maxInt64) (list_max (map b_maxt ps) minInt64)
                         (forallb b_ooo ps) (map b_id ps) data [] in
          [TmpFill b; BlkRename (b_id b)]
